@@ -230,3 +230,36 @@ def analysis_owned_solver_object(fn: FuncInfo, recv) -> bool:
     if isinstance(key, ast.BinOp) and isinstance(key.op, ast.Add) and isinstance(key.left, ast.Constant) and isinstance(key.left.value, str):
         return len(key.left.value.strip("_")) >= 3
     return False
+
+
+def same_key_rebuild(fn: FuncInfo, target: ast.AST, value: ast.AST) -> bool:
+    """``X.attr = <dict with exactly the keys X.attr has now>``: a comprehension over X.attr.items() keyed by the loop
+    key without filter, or a local dict that starts empty and is only filled by ``local[k] = ...`` in one unconditional
+    loop over X.attr.items() / X.attr with k the loop key."""
+    tt = norm(target, 300)
+
+    def over_target(it: ast.AST) -> bool:
+        if isinstance(it, ast.Call) and isinstance(it.func, ast.Attribute) and it.func.attr in ("items", "keys") and norm(it.func.value, 300) == tt:
+            return True
+        return norm(it, 300) == tt
+
+    if isinstance(value, ast.DictComp) and len(value.generators) == 1:
+        gen = value.generators[0]
+        key = gen.target.elts[0] if isinstance(gen.target, ast.Tuple) else gen.target
+        return over_target(gen.iter) and isinstance(key, ast.Name) and isinstance(value.key, ast.Name) and value.key.id == key.id and not gen.ifs
+    if isinstance(value, ast.Name):
+        name = value.id
+        inits = [n for n in walk_local(fn.node) if isinstance(n, ast.Assign) and len(n.targets) == 1 and isinstance(n.targets[0], ast.Name) and n.targets[0].id == name]
+        if len(inits) != 1 or not ((isinstance(inits[0].value, ast.Dict) and not inits[0].value.keys) or norm(inits[0].value) == "dict()"):
+            return False
+        stores = [n for n in walk_local(fn.node) if isinstance(n, ast.Assign) and len(n.targets) == 1 and isinstance(n.targets[0], ast.Subscript) and isinstance(n.targets[0].value, ast.Name) and n.targets[0].value.id == name]
+        others = [n for n in walk_local(fn.node) if isinstance(n, ast.Call) and isinstance(n.func, ast.Attribute) and isinstance(n.func.value, ast.Name) and n.func.value.id == name and n.func.attr in ("update", "pop", "setdefault", "clear", "popitem")]
+        if len(stores) != 1 or others:
+            return False
+        st = stores[0]
+        lp = parent(st)
+        if not isinstance(lp, ast.For) or lp.body != [st] or lp.orelse or not over_target(lp.iter):
+            return False
+        key = lp.target.elts[0] if isinstance(lp.target, ast.Tuple) else lp.target
+        return isinstance(key, ast.Name) and isinstance(st.targets[0].slice, ast.Name) and st.targets[0].slice.id == key.id
+    return False
